@@ -54,9 +54,13 @@ def r1(cx, rec):
         e = H.expr_call(vb)
         args = [access_path(a) or show(a) for a in e[2]]
         rec.site(H, vb, 'validate(%s)' % ', '.join(a[:50] for a in args))
+        if len(e[2]) != 4:
+            rec.violation('validate-signature', H, vb, 'Request::validate is called with %d arguments: the request must be checked against the loaded '
+                          'piece\'s index, the piece count and the loaded piece\'s length' % (len(e[2]) - 1))
+            continue
         a1, a2, a3 = e[2][1], e[2][2], e[2][3]
         rec.need((access_path(a1) or '').endswith('%s.%s' % (V.tx_slot(F), V.tx_index(F))), 'validate-arg/index', H, vb, 'loaded-index argument is %s' % show(a1)[:80])
-        rec.need(access_path(a2) == 'self.pieces_num', 'validate-arg/pieces', H, vb, 'piece-count argument is %s' % show(a2)[:80])
+        rec.need(access_path(a2) == 'self.' + V.handler_pieces_num(F), 'validate-arg/pieces', H, vb, 'piece-count argument is %s' % show(a2)[:80])
         rec.need(a3[0] == 'call' and a3[4].get('name') == 'len' and (access_path(a3[2][0]) or '').endswith('%s.%s' % (V.tx_slot(F), V.tx_buff(F))), 'validate-arg/length', H, vb,
                  'piece-length argument is %s, not the loaded piece\'s length' % show(a3)[:80])
         for sb, t in H.outcome_edges(vb).get('ok', []):
@@ -342,3 +346,22 @@ def r8(cx, rec):
     from rules import C14
     C14.r1(cx, rec)
     C14.r4(cx, rec)
+
+
+@TABLE.rule('9', 'K2', 'whole messages reach the socket: the connection writes with write_all, never with a call that may write a prefix', floor=1)
+def r9(cx, rec):
+    F = cx.F
+    n = 0
+    for f in F.user_fns():
+        if not f.path.startswith('connection::'):
+            continue
+        for bb in mirq.real_calls(f):
+            cal = f.blocks[bb]['t'].get('callee') or ''
+            if re.search(r'AsyncWriteExt::write_all$', cal):
+                n += 1
+                rec.site(f, bb, 'write_all')
+            elif re.search(r'AsyncWriteExt::(write|write_buf|write_vectored)$|TcpStream::try_write', cal):
+                rec.violation('partial-write/' + F.owner_fn(f).path, f, bb,
+                              'the connection sends with %s, which may write only a prefix of the message: under back pressure a piece '
+                              'message is truncated and the following answers carry wrong bytes' % cal.split('::')[-1])
+    rec.need(n >= 1, 'no-write-all', 'connection', None, 'the connection never writes a whole message')
